@@ -309,18 +309,18 @@ func genPB(front string) func(t *rapid.T) Case {
 func init() {
 	tail := "; oracle = truth-table model set over the declared variables; CountModels, Enumerate(nil) and Enumerate(chan) each on a fresh solver, and CountModels on a solver that has already solved the problem; delivered models compared as a multiset; non-trivial = >=2 models, not decided at parse time, >=2 decisions"
 	vf.Register(
-		vf.Sub[Case]{Name: "cnf", Quick: 15000, Thorough: 200000, Gen: genCNF, Check: check, Floor: 0.2,
+		vf.Sub[Case]{Name: "cnf", Quick: 15000, Thorough: 100000, Gen: genCNF, Check: check, Floor: 0.2,
 			Rule: "CNF over n<=10 declared variables via ParseSliceNb/ParseCNF: no constraint, tautologies only, fully decided by units, sparse random formulas with odd clause shapes and unused variables" + tail},
 		vf.Sub[Case]{Name: "cnf-conflict-rich", Quick: 400, Thorough: 5000, Gen: genHardCNF, Check: check, Floor: 0.4,
 			Classes: map[string]float64{"conflicts>0": 0.35, "models>=16": 0.25},
 			Rule:    "3-SAT at ratio 3.0..4.2 and parity systems with n-9..n-3 constraints, n in 12..18: many models and real conflicts during enumeration" + tail},
 		vf.Sub[GuardedCase]{Name: "guarded-pigeonhole", Quick: 16, Thorough: 200, Gen: genGuarded, Check: checkGuarded, Floor: 0,
 			Rule: "pigeonhole PHP(6,5)/PHP(7,6) guarded by a variable g (g -> PHP, not g -> all pigeonhole variables false), one unit clause and 0..3 free variables: exactly 2^e models by construction; CountModels or Enumerate(chan) must refute PHP under g = true in the middle of the enumeration (hundreds of conflicts, restarts, reductions with a lowered limit); non-trivial = >=100 conflicts"},
-		vf.Sub[Case]{Name: "card-fan", Quick: 4000, Thorough: 80000, Gen: genCardFan, Check: check, Floor: 0.5,
+		vf.Sub[Case]{Name: "card-fan", Quick: 4000, Thorough: 40000, Gen: genCardFan, Check: check, Floor: 0.5,
 			Rule: "ParseCardConstrs: one or two cardinality constraints 'at least 3..4 of 6..9 literals' over 9..13 variables, a trigger variable whose binary clauses falsify 2..K+1 of the first K+1 literals of a constraint at once (in position order, reverse order or shuffled), a second one that makes spare literals true, 0..4 loose binary clauses" + tail},
-		vf.Sub[Case]{Name: "card", Quick: 8000, Thorough: 100000, Gen: genPB("card"), Check: check, Floor: 0.15,
+		vf.Sub[Case]{Name: "card", Quick: 8000, Thorough: 50000, Gen: genPB("card"), Check: check, Floor: 0.15,
 			Rule: "cardinality constraints (n<=8, <=4 constraints) via ParseCardConstrs" + tail},
-		vf.Sub[Case]{Name: "pb", Quick: 8000, Thorough: 100000, Gen: genPB("pb"), Check: check, Floor: 0.15,
+		vf.Sub[Case]{Name: "pb", Quick: 8000, Thorough: 50000, Gen: genPB("pb"), Check: check, Floor: 0.15,
 			Rule: "PB constraints (n<=8, <=4 constraints, coefficients of either sign) via ParsePBConstrs" + tail},
 	)
 }
